@@ -34,7 +34,7 @@ PROPS = {
         'Variables/Arguments are opaque (external_body); HashMap key model for ScopeName assumed'),
     'C04': P(
         'Proof (Verus, unbounded in rank and size) of the array index arithmetic, bounds check and element framing; Kani for index casts, fixed-length strings (bounded) and default allocation.',
-        'VArray::abs_index = row-major offset, Ok exactly when every index is inside its declared bounds, injective on in-box tuples, no i32 overflow; get_element(_mut) index that slot; LBOUND/UBOUND = declared bounds; fix_length gives exactly n characters (bounded stand-in).',
+        'VArray::abs_index = row-major offset, Ok exactly when every index is inside its declared bounds, injective on in-box tuples, no i32 overflow; get_element(_mut) index that slot; LBOUND/UBOUND = declared bounds; fix_length gives exactly n characters, not bytes (bounded stand-in: strings of at most 3 characters incl. CHR$(128..255), width <= 4).',
         'record-field isolation beyond HashMap::get_mut semantics; variable-path construction in the generator; conversion of the stored value to the element type (covered under C06)',
         'Verus contracts + lemmas (mixed-radix injectivity) on the extracted VArray methods; Kani for casts/strings',
         'array length <= i32::MAX elements and bounds in INTEGER range are stated preconditions (type invariant of VArray established by VArray::new)'),
@@ -46,10 +46,10 @@ PROPS = {
         '<[usize]>::binary_search assumed to satisfy its std-documented contract (assume_specification); strictly ascending statement addresses are a caller obligation recorded under C15'),
     'C06': P(
         'Proof (Kani, full machine domain of every scalar payload, loop-free) that numeric conversions and arithmetic produce a value of the target type and range or raise Overflow.',
-        'all QBNumberCast impls and CastVariant::cast per source kind x target over all f32/f64/i32/i64 bit patterns: Ok(r) => r in range and |x-r|<=0.5, Err(Overflow) otherwise, non-finite never Ok; VM operators on valid operands return valid values or Overflow/DivisionByZero; static result type of the linter = run-time tag.',
+        'all QBNumberCast impls and CastVariant::cast per source kind x target over all f32/f64/i32/i64 bit patterns: Ok(r) => r in range and |x-r|<=0.5, Err(Overflow) otherwise, non-finite never Ok; VM operators on valid operands return valid values or Overflow/DivisionByZero (division: by zero exactly when the divisor is exactly zero, Overflow exactly when the IEEE quotient is not finite); static result type of the linter = run-time kind of the VM result, for `/` through qb_divide (operands and quotient converted to the SINGLE/DOUBLE type the checker assigns).',
         'that the generator emits a Cast wherever static types differ; INPUT/READ/VAL string scanners beyond the stated bound',
         'Kani loop-free harnesses over kani::any() payloads with concrete Variant discriminants',
-        'one harness per concrete Variant kind (symbolic payload); Variant drop glue not exercised (mem::forget)'),
+        'one harness per concrete Variant kind (symbolic payload); Variant drop glue not exercised (mem::forget); the 32 type_table kind-pair harnesses and the hex/oct literal harnesses run under C06 in the thorough tier only (they are quick obligations of C12 / C10)'),
     'C07': P(
         'Proof of the location kernel (every position a diagnostic can carry lies inside the text or immediately at its end; Verus, all texts) and of totality - no panic, no arithmetic overflow, termination - of the parse/check functions under contract: the repetition combinators (under element progress), the operator-precedence rotation, the literal converters, the name tables, the DEFtype table and every post-conversion linter traversal. Grammar-wide panic freedom is not under contract.',
         'create_row_col_view/StringView::position: for any index the reported (row,col) is that of a character of the text or the end position; Many/ManyCtx/Delimited loops terminate under element progress; binary_expr/flip_binary/apply_unary_priority_order terminate and their three panic! sites are unreachable; hex/oct/decimal/negated literal conversion never overflows or panics on any digit string up to the stated lengths; Names/NameInfo/Compacts operations, TypeResolverImpl and the linter traversals (PostConversionLinter defaults, LabelLinter, ForNextCounterMatch, BuiltInLinter, UndefinedFunctionReducer) return on every tree without reaching a panic site.',
@@ -58,8 +58,8 @@ PROPS = {
         'text length < 2^32-1 (u32 row/col counters) is a stated precondition; under C07 the hex/oct literal harnesses run in the thorough tier (quick obligations of C10)'),
     'C08': P(
         'Proof of the error-surface kernel: every error a handler can return has a code (no panic in get_code), argument-conversion helpers are total, and every expect/unwrap/index inside the units under contract is unreachable under the unit invariant.',
-        'RuntimeError::get_code total over the whole enum incl. LinterError(any LintError); variant_casts helpers total on valid numeric Variants; panic sites in Context/NearestStatementFinder/VArray/DataSegment unreachable under well-formedness.',
-        'everything the linter is supposed to rule out for whole programs (labels, variable info, built-in argument shapes below the top node of an expression)',
+        'RuntimeError::get_code total over the whole enum incl. LinterError(any LintError); variant_casts helpers total on valid numeric Variants; panic sites in Context/NearestStatementFinder/VArray/DataSegment unreachable under well-formedness; no expression position of an accepted program escapes the built-in / user-function argument checks or the undefined-function reducer (accepted programs that panicked: repairs 6, 9, 21-23, 26).',
+        'everything the linter is supposed to rule out for whole programs (labels, variable info) beyond the traversals under contract',
         'Kani enum-complete harnesses + Verus panic-freedom obligations (R2: panic!/expect become unreachable obligations)',
         'whole-program composition is outside every contract'),
     'C09': P(
@@ -82,9 +82,9 @@ PROPS = {
         'text length < 2^32-1 stated precondition'),
     'C12': P(
         'Proof (Kani, complete over operators x static operand types x all payloads) that the linter\'s typing tables and the VM agree: what the table accepts never raises Type mismatch at run time and what it rejects would.',
-        'cast_binary_op_q/bigger_numeric_type/can_cast_to vs the real VM operators and Variant::cast for all 13 operators x 5x5 type qualifiers; ExpressionType table consistent with the qualifier table; by-ref argument rule.',
-        'verdict stability under renaming; the edit-and-reject matrix; statement-level checks (labels, argument counts, NEXT counters)',
-        'Kani table-vs-implementation harnesses on the real linter and VM functions',
+        'cast_binary_op_q/bigger_numeric_type/can_cast_to vs the real VM operators and Variant::cast for all 13 operators x 5x5 type qualifiers; ExpressionType table consistent with the qualifier table; by-ref argument rule (an array argument has exactly the element type of the parameter). Verus: every expression that occurs in a statement (written from the AST) is shown to every post-conversion linter, incl. assignment targets and DIM bounds; an accepted expression has had every built-in and user function call anywhere in its tree checked; no call of an undefined function survives the reducer.',
+        'verdict stability under renaming; the edit-and-reject matrix; the statement-level traversal of ExpressionReducer beyond assignment and DIM bounds; FOR bounds are not type-checked',
+        'Kani table-vs-implementation harnesses on the real linter and VM functions; Verus contracts on the extracted linter traversals (trait-level contract shared by the overriding linters)',
         'string payloads bounded to length <= 1 (outcome independent of content)'),
     'C13': P(
         'Proof of the DEFtype letter table (Kani, complete over all letters and ranges) and of the name-table lookup rules (Verus): bare/qualified/extended resolution and scope visibility; the ordered rule list of the converter is not under contract.',
@@ -112,13 +112,13 @@ PROPS = {
         'core::fmt number formatting trusted; bounded units labelled and not counted'),
     'C17': P(
         'Proof (Kani, complete over numeric payloads) of the argument checks (negative counts / non-positive starts raise Illegal function call); defining equations of the string kernels as bounded stand-ins.',
-        'to_non_negative_int/to_positive_int/... total with the documented error; do_mid, do_instr, STRING$ kernels satisfy their equations for |s|,|t| <= 3 over a 3-letter alphabet.',
-        'the run wrappers of LEFT$/RIGHT$/SPACE$/LEN/trim/case functions (read arguments through Context/HashMap); unbounded string lengths',
+        'to_non_negative_int/to_positive_int/... total with the documented error; do_mid (|s| <= 3 symbolic ASCII, start and length over their whole INTEGER ranges), do_instr (alphabet {a,b}, |s| <= 4, |t| <= 3, n <= 5, against a byte-by-byte oracle) and fix_length satisfy their defining equations (bounded stand-ins).',
+        'LEFT$/RIGHT$ (inline in the run wrappers), STRING$, VAL; the run wrappers of SPACE$/LEN/trim/case functions (read arguments through Context/HashMap); unbounded string lengths',
         'Kani complete harnesses for argument checks + bounded harnesses on the real private string functions',
         'string units are bounded stand-ins, labelled, never counted as proved'),
     'C18': P(
         'Proof (Verus) of the handle-table protocol and error mapping; the line/field reader as a bounded stand-in (Kani); round trips through the host file system are outside every contract.',
-        'FileManager: OPEN on a handle in use -> FileAlreadyOpen before touching the file system; CLOSE/CLOSE ALL free handles; wrong-mode access -> BadFileMode, absent -> FileNotFound; ReadInputSource eof/line/field splitting (<= 4 bytes); io::Error NotFound -> 53, UnexpectedEof -> 62.',
+        'FileManager: OPEN on a handle in use -> FileAlreadyOpen before touching the file system; CLOSE/CLOSE ALL free handles; wrong-mode access -> BadFileMode, absent -> FileNotFound; ReadInputSource over a stub reader: eof() true exactly when nothing is left, LINE INPUT takes the bytes up to the first CR/LF/end and exactly one terminator (CR LF once), INPUT the same with blanks trimmed and comma as field end, past the end -> Input past end (bounded stand-in: every file of <= 2 bytes over {a , blank CR LF} and four 4-byte files); io::Error NotFound -> 53, UnexpectedEof -> 62.',
         'read-back-what-was-written, APPEND, PUT/GET persistence, KILL/NAME (host file system across a history of calls)',
         'Verus contracts on the extracted FileManager with File opaque + bounded Kani harness on the generic reader',
         'std::fs::File / OpenOptions are external_body with no postcondition'),
